@@ -46,6 +46,10 @@ type Result struct {
 	// without the tape and stays valid when the generator changes.
 	Script []json.RawMessage `json:"script,omitempty"`
 	Crash      string         `json:"crash,omitempty"` // set by the supervisor when the worker died
+	// ILHash / ILSteps: Engine F only: hash of the sequence of (resumed goroutine's site) decisions
+	// and their number.
+	ILHash  uint64 `json:"il_hash,omitempty"`
+	ILSteps uint64 `json:"il_steps,omitempty"`
 }
 
 // Ctx is handed to a property's Run function.
@@ -143,6 +147,9 @@ func (c *Ctx) Record(v interface{}) {
 	c.res.Script = append(c.res.Script, b)
 }
 
+// SetInterleaving records the Engine F schedule signature of the run.
+func (c *Ctx) SetInterleaving(hash, steps uint64) { c.res.ILHash, c.res.ILSteps = hash, steps }
+
 func (c *Ctx) Finish() *Result {
 	c.res.Sig = c.h
 	c.res.Tape = c.T.Recorded()
@@ -174,6 +181,9 @@ type Property struct {
 	Bubble bool
 	// MemLimitMB, if non-zero, is applied to worker processes with RLIMIT_AS.
 	MemLimitMB int
+	// FQuickSeconds / FThoroughSeconds: budget of the additional Engine F phase (instrumented build);
+	// zero means the property has no Engine F phase.
+	FQuickSeconds, FThoroughSeconds int
 	// DryScript: the world can generate its script without running the system (Ctx.Dry).
 	DryScript bool
 	// BatchSize is the number of runs per worker command (smaller for slow runs).
